@@ -99,22 +99,21 @@ Lemma mk_concat_ok a b wa wb : type_of a = TBV wa -> type_of b = TBV wb -> mk_co
 Proof. intros Ha Hb. unfold mk_concat, bvw. now rewrite Ha, Hb. Qed.
 
 Section Ser.
-  Variable top : symtab.
-  Hypothesis Hkeys : forall n, name_ok n = false \/ all_digits n = true -> assoc_str n top = None.
-  Let st := nst_new top.
+  Variable st : nst.
+  Hypothesis Hkeys : forall n, name_ok n = false \/ all_digits n = true -> nst_get st n = None.
 
   Lemma head_item h : plain_value h = true -> name_ok h = false ->
     match h with String c _ => Ascii.eqb c c_bar = false | EmptyString => True end ->
     sxi st (SxAtom h) = POk (ISym h).
   Proof.
-    intros Hp Hn Hb. cbn [sxi]. unfold st. rewrite (atom_head top h Hp (or_introl Hn) Hkeys Hb). reflexivity.
+    intros Hp Hn Hb. cbn [sxi]. rewrite (atom_head st h Hp (or_introl Hn) Hkeys Hb). reflexivity.
   Qed.
 
   Lemma numeral_item k : sxi st (SxAtom (dec_string k)) = POk (ISym (dec_string k)).
   Proof.
-    cbn [sxi]. unfold st.
+    cbn [sxi].
     pose proof (dec_string_digits k) as Hd.
-    rewrite (atom_head top _ (digits_plain _ Hd) (or_intror Hd) Hkeys); [reflexivity|].
+    rewrite (atom_head st _ (digits_plain _ Hd) (or_intror Hd) Hkeys); [reflexivity|].
     destruct (all_digits_first _ Hd) as (c & r & E & Hc & _). rewrite E.
     clear -Hc. revert Hc. all_ascii c; vm_compute; intros H; first [reflexivity | discriminate H].
   Qed.
@@ -151,7 +150,7 @@ Section Ser.
   Qed.
 
   Definition syms_in (e : expr) : Prop :=
-    forall n t, In (n, t) (symbols e) -> name_ok n = true /\ assoc_str n top = Some (sym_of n t).
+    forall n t, In (n, t) (symbols e) -> name_ok n = true /\ nst_get st n = Some (sym_of n t).
 
   Lemma lit_item a w v : early_parse (Some st) a = POk (IExpr (BVLiteral w v)) ->
     match a with String c _ => Ascii.eqb c c_bar = false | EmptyString => False end ->
@@ -282,7 +281,7 @@ Section Ser.
       repeat rewrite andb_true_iff in Hbu; repeat rewrite andb_true_iff in Hix.
     - (* BVSymbol *)
       destruct (Hsy n (TBV w) (or_introl eq_refl)) as [Hn Ha].
-      cbn [sxi]. unfold st. rewrite (atom_symbol top n (TBV w) Hn Ha). reflexivity.
+      cbn [sxi]. rewrite (atom_symbol st n _ Hn Ha). reflexivity.
     - (* BVLiteral *)
       apply wt_lit in Hwt. destruct Hwt as [Hw Hv].
       destruct (N.ltb_spec 1 w) as [H1 | H1].
@@ -397,7 +396,7 @@ Section Ser.
       cbn [ty_eqb]. rewrite !N.eqb_refl. reflexivity.
     - (* ArraySymbol *)
       destruct (Hsy n (TArr iw dw) (or_introl eq_refl)) as [Hn Ha].
-      cbn [sxi]. unfold st. rewrite (atom_symbol top n (TArr iw dw) Hn Ha). reflexivity.
+      cbn [sxi]. rewrite (atom_symbol st n _ Hn Ha). reflexivity.
     - (* ArrayConstant *)
       pose proof Hwt as Hinv. apply wt_aconst in Hinv. destruct Hinv as (Hwa & Hta & Hiw).
       destruct Hix as [[Hix1 Hix2] Hia]. apply N.ltb_lt in Hix1, Hix2.
@@ -437,7 +436,7 @@ Theorem parse_ser_lemma :
     parse_expr_toks top (toks_of_sx (ser e mb)) = POk (rt e mb) /\ equiv e (rt e mb).
 Proof.
   intros top e mb Hwt Hbu Hix [Hsy Hkeys]. split; [| now apply rt_equiv].
-  pose proof (sxi_ser top Hkeys e Hwt Hbu Hix Hsy mb) as Hs.
+  pose proof (sxi_ser (nst_new top) Hkeys e Hwt Hbu Hix Hsy mb) as Hs.
   destruct (machine_sx (nst_new top) _ _ Hs) as [Hr _].
   unfold parse_expr_toks, parse_expr_internal, parse_eot.
   rewrite <- (app_nil_r (toks_of_sx (ser e mb))). rewrite (Hr [] [] I). reflexivity.
@@ -465,7 +464,7 @@ Theorem truncated_panics_lemma :
     parse_expr_toks top p = PPanic.
 Proof.
   intros top e mb p q Hwt Hbu Hix [Hsy Hkeys] Hpq Hq.
-  pose proof (sxi_ser top Hkeys e Hwt Hbu Hix Hsy mb) as Hs.
+  pose proof (sxi_ser (nst_new top) Hkeys e Hwt Hbu Hix Hsy mb) as Hs.
   destruct (machine_sx (nst_new top) _ _ Hs) as [Hr _].
   pose proof (Hr [] [] I) as Hfull. rewrite app_nil_r, Hpq in Hfull. unfold cont in Hfull. cbn [machine_done] in Hfull.
   pose proof (run_app_cases p q [] (nst_new top) false) as Hc.
@@ -483,7 +482,7 @@ Theorem trailing_token_error_lemma :
     parse_expr_toks top (toks_of_sx (ser e mb) ++ t :: q) = PErr.
 Proof.
   intros top e mb t q Hwt Hbu Hix [Hsy Hkeys] Hc Hp.
-  pose proof (sxi_ser top Hkeys e Hwt Hbu Hix Hsy mb) as Hs.
+  pose proof (sxi_ser (nst_new top) Hkeys e Hwt Hbu Hix Hsy mb) as Hs.
   destruct (machine_sx (nst_new top) _ _ Hs) as [Hr _].
   unfold parse_expr_toks, parse_expr_internal, parse_eot. rewrite (Hr [] (t :: q) I).
   unfold cont. cbn [machine_done pbind next_no_comment]. destruct t; try congruence; reflexivity.
